@@ -34,6 +34,9 @@ const (
 	verifOutN
 )
 
+// verifOuts is the set of exchange outcomes explored by the running harness.
+var verifOuts = []int{verifOutOK, verifOutServfail, verifOutNetErr, verifOutEOF, verifOutOther, verifOutNil}
+
 // verifUps is an upstream whose every exchange outcome is an explored choice.
 type verifUps struct {
 	name     string
@@ -44,7 +47,7 @@ type verifUps struct {
 
 func (u *verifUps) Exchange(_ context.Context, req *dns.Msg) (*dns.Msg, Network, error) {
 	u.calls++
-	u.lastOut = verifChoice(verifOutN)
+	u.lastOut = verifOuts[verifChoice(len(verifOuts))]
 	u.lastResp = nil
 	switch u.lastOut {
 	case verifOutOK:
@@ -80,13 +83,23 @@ func (w *verifFwdRW) WriteMsg(_ context.Context, _, resp *dns.Msg) error {
 // probe succeeds; queries go to one active main upstream, to a fallback exactly once
 // on a network error or when no main upstream is active, and fail otherwise.
 //
-//verif:harness name=H17a-failover tier=quick bounds="2 main upstreams, 0..1 fallback, 3 steps from {health-check round, query}; every exchange outcome from {NOERROR, SERVFAIL, net.Error, io.EOF, other error, nil}; backoff duration and clock readings symbolic" reach=done,backoff-skip,failover,servfail-path,recovered,no-fallbacks maxpaths=400000
+//verif:harness name=H17a-failover tier=quick bounds="2 main upstreams, 0..1 fallback, 3 steps from {health-check round, query}; every exchange outcome from {NOERROR, SERVFAIL, net.Error, other error}; backoff duration and clock readings symbolic" reach=done,backoff-skip,failover,servfail-path,recovered,no-fallbacks maxpaths=400000
 //verif:assume clock readings non-decreasing in [2^41, 2^62), backoff in (0, 2^40]; the pick among active upstreams / fallbacks is an explored choice
-func VerifC17Failover() { verifC17Failover(3) }
+func VerifC17Failover() {
+	verifOuts = []int{verifOutOK, verifOutServfail, verifOutNetErr, verifOutOther}
+	verifC17Failover(3)
+}
+
+// VerifC17Failover2 explores every outcome kind over two steps.
+//
+//verif:harness name=H17a-failover2 tier=quick bounds="as H17a-failover with 2 steps and every exchange outcome from {NOERROR, SERVFAIL, net.Error, io.EOF, other error, nil response}" reach=done,failover,servfail-path,no-fallbacks maxpaths=400000
+//verif:assume clock readings non-decreasing in [2^41, 2^62), backoff in (0, 2^40]; the pick among active upstreams / fallbacks is an explored choice
+func VerifC17Failover2() { verifC17Failover(2) }
 
 // VerifC17Failover5 is the thorough variant.
 //
-//verif:harness name=H17a-failover5 tier=thorough bounds="as H17a-failover with 4 steps" reach=done,backoff-skip,failover,servfail-path,recovered,no-fallbacks maxpaths=8000000
+//verif:harness name=H17a-failover5 tier=thorough bounds="as H17a-failover2 with 4 steps" reach=done,backoff-skip,failover,servfail-path,recovered,no-fallbacks maxpaths=8000000
+//verif:assume clock readings non-decreasing in [2^41, 2^62), backoff in (0, 2^40]; the pick among active upstreams / fallbacks is an explored choice
 func VerifC17Failover5() { verifC17Failover(4) }
 
 func verifC17Failover(steps int) {
